@@ -120,6 +120,22 @@ def _first_project_frame(text):
     return "?"
 
 
+_libc = None
+
+
+def _die_with_parent():
+    """Called in the child between fork and exec: the tool under test is killed when the checking process dies
+    (a check that is itself killed must not leave a spinning tool behind)."""
+    global _libc
+    try:
+        import ctypes
+        if _libc is None:
+            _libc = ctypes.CDLL(None, use_errno=True)
+        _libc.prctl(1, 9, 0, 0, 0)       # PR_SET_PDEATHSIG, SIGKILL
+    except Exception:
+        pass
+
+
 def run_tool(cmd, stdin=None, env=None, timeout=30, cwd=None, stdin_file=None, stdout_file=None,
              binary=None, san_dir=None, limit_as=None, stack_kb=None, pass_fds=(), pin_cpu=False):
     """Run one process.  Sanitizer reports are taken from stderr."""
@@ -140,6 +156,7 @@ def run_tool(cmd, stdin=None, env=None, timeout=30, cwd=None, stdin_file=None, s
 
     def pre():
         os.setsid()
+        _die_with_parent()
         if pin_cpu:
             try:
                 cpus = sorted(os.sched_getaffinity(0))
